@@ -104,7 +104,8 @@ class World(BaseWorld):
             if k == 'transform':
                 ops.append({'op': 'transform', 'array': ro.choice(ARRAYS)})
             elif k == 'resolve':
-                ops.append({'op': 'resolve', 'guess': ro.choice(['x', 'x', 'res']), 'abort_at': ro.choice([None, None, None, 0, 1, 5])})
+                ops.append({'op': 'resolve', 'guess': ro.choice(['x', 'x_live', 'x_live', 'res']), 'abort_at': ro.choice([None, None, None, 0, 1, 2, 5]),
+                            'abort_guess': ro.choice(['same', 'zeros', 'noise'])})
             else:
                 o = {'op': 'calc', 'fn': k}
                 o.update(ro.choice(CALCS[k]))
@@ -292,20 +293,35 @@ class World(BaseWorld):
                     ctx.log(skipped='omega not in Fourier space')
                     ctx.probe('resolve_skipped_omega_real')
                     continue
-                gP = np.copy(P.x) if op['guess'] == 'x' else np.copy(P.minimize_result.x)
-                gS = np.copy(S.x) if op['guess'] == 'x' else np.copy(S.minimize_result.x)
-                identical_inputs = np.array_equal(gP, gS) and np.array_equal(np.asarray(P.omega.data), np.asarray(S.omega.data))
-                outP = outS = None
+                live = op['guess'] == 'x_live'          # P.solve(guess=P.x): the very array object, as users write it
+                gP = np.copy(P.minimize_result.x) if op['guess'] == 'res' else np.copy(P.x)
+                gS = np.copy(S.minimize_result.x) if op['guess'] == 'res' else np.copy(S.x)
+                aborted = False
                 if op.get('abort_at') is not None:
-                    # a first attempt is interrupted by the user after k callbacks (object left mid-iteration), then repeated
+                    # a first attempt (from its own solution, or from another starting point) is interrupted by the user after k
+                    # callbacks: the object is left mid-iteration; then the solve is repeated
+                    ag = op.get('abort_guess', 'same')
+                    if ag == 'zeros':
+                        g0 = np.zeros_like(gP)
+                    elif ag == 'noise':
+                        g0 = gP + 0.05 * np_rng(seed, 'abortguess', step).standard_normal(gP.shape)
+                    else:
+                        g0 = np.copy(gP)
                     srP.abort_next = int(op['abort_at'])
                     try:
-                        self.solve(pp, P, srP, user, np.copy(gP))
+                        self.solve(pp, P, srP, user, g0)
                     except simroot.SolveAborted:
                         ctx.probe('resolve_aborted_then_retried')
+                        aborted = True
                     except Exception:
                         pass
                     srP.abort_next = None
+                if live:
+                    gP = P.x                             # whatever the object holds now (the aborted iterate after an abort)
+                    ctx.probe('resolve_guess_is_the_live_x_object')
+                identical_inputs = (not aborted or not live) and np.array_equal(np.asarray(gP), gS) and \
+                    np.array_equal(np.asarray(P.omega.data), np.asarray(S.omega.data))
+                outP = outS = None
                 try:
                     rP = self.solve(pp, P, srP, user, gP)
                 except Violation:
@@ -444,7 +460,7 @@ class World(BaseWorld):
     def expected_probes(self, tier):
         p = ['calc_with_totalCorr_fourier', 'calc_with_directCorr_real', 'calc_with_omega_real', 'same_fn_twice', 'spinodal_then_other',
              'rank3', 'rank2', 'resolve', 'resolve_after_calc', 'solve_with_stale_last_eval', 'rank3_spinodal_twice',
-             'transform_totalCorr', 'transform_directCorr', 'transform_omega', 'resolve_aborted_then_retried', 'resolve_inputs_bit_identical',
+             'transform_totalCorr', 'transform_directCorr', 'transform_omega', 'resolve_aborted_then_retried', 'resolve_guess_is_the_live_x_object', 'resolve_inputs_bit_identical',
              'resolve_inputs_differ_by_rounding'] + ['calc_' + f for f in sorted(CALCS)]
         return p
 
